@@ -346,3 +346,5 @@ B("r6-writer-without-settings", "C16", "C16-R10", (DOC, "RSTWriter(title, settin
 G("r6-write-local-text", ["C01", "C18", "C20"], (RW, "                f.write(str(self))", "                rendered = str(self)\n                f.write(rendered)"))
 B("r6-write-stripped", "C01", "C01-R12", (RW, "                f.write(str(self))", "                f.write(str(self).strip() + \"\\n\")"))
 B("r6-pool-map", "C06", "C06-R13", (INIT, "    for input_file in args.files:\n        # Process all files specified on command line\n        document(input_file, settings_obj)", "    import concurrent.futures\n    with concurrent.futures.ThreadPoolExecutor() as pool:\n        for input_file in args.files:\n            pool.submit(document, input_file, settings_obj)"))
+B("r7-continue-skips-cutoff", "C17", "C17-R10", (INIT, "                    if not recursive:\n                        break\n                    continue\n", "                    continue\n"))
+G("r7-cutoff-by-guard", ["C13", "C14", "C17"], (INIT, "                    if not recursive:\n                        break\n                    continue\n", "                    if recursive:\n                        continue\n                    break\n"))
